@@ -15,7 +15,9 @@ fn accepted_steps_are_reported_intervals() {
                 let opts = Options::builder().method(method.clone()).rtol(1e-3).atol(1e-6).build();
                 let sol = solve_ivp(&Decay, a, b, &[1.0], opts).unwrap();
                 assert_eq!(sol.naccpt, sol.t.len() - 1, "{:?} [{}, {}]", method, a, b);
-                assert_eq!(*sol.t.last().unwrap(), b, "{:?} [{}, {}]", method, a, b);
+                let last = *sol.t.last().unwrap();
+                let past = if b > a { last > b } else { last < b };
+                assert!(!past && (last - b).abs() <= 4.0 * f64::EPSILON * b.abs(), "{:?} [{}, {}]: last sample {}", method, a, b, last);
             }
         }
     }
